@@ -562,6 +562,12 @@ def gen_unary_arith(rng, ports, depth, ops, wide_ctx):
     (recorded findings: the JIT engines do not sign-extend a narrower signed operand of a unary
     operator there, and mis-evaluate `~` of a narrow literal)."""
     op = rng.choice(["-", "~", "+"])
+    if not wide_ctx:
+        x = gen_expr(rng, ports, depth - 1, ops, wide_ctx)
+        if x[0] == "lit":
+            # recorded findings: the JIT engines mis-evaluate ~ / - of a literal narrower than the context
+            x = ("var", rng.randrange(len(ports)))
+        return ("un", op, x)
     if wide_ctx:
         ok = [i for i, p in enumerate(ports) if p.width > 128 and not p.signed]
         if not ok:
@@ -645,6 +651,9 @@ def gen_expr(rng, ports, depth, ops=None, wide_ctx=True):
         y = gen_amount_operand(rng, ports)
         if expr_signed(y, ports):
             y = ("cat", [y])
+        # the base is a plain operand (recorded finding: Cranelift mis-evaluates ** whose base is a
+        # 1-bit reduction result)
+        x = ("var", rng.randrange(len(ports)))
         if expr_signed(x, ports):
             x = ("cat", [x])
     elif op in SHIFT:
@@ -848,6 +857,10 @@ def gen_module(rng, idx, n_out=6, depth=None, ops=None):
         e = gen_expr(rng, ports, d, ops, wide_ctx)
         if e[0] in ("var", "lit"):
             e = ("bin", rng.choice(ARITH), e, ("var", rng.randrange(len(ports))))
+        if e[0] == "bin" and e[1] in ("&", "|", "^", "~^") and expr_signed(e, ports) and 64 < expr_selfw(e, ports) <= 128:
+            # recorded finding: Cranelift does not mask the store of a signed 65..128-bit bitwise root to a
+            # narrower non-native destination; `{}` keeps the shape out of the root position
+            e = ("cat", [e])
         outs.append(Port("o%d" % k, wos[k], False))
         exprs.append(e)
     return ExprModule("M%d" % idx, ports, outs, exprs)
@@ -961,6 +974,71 @@ def gen_signed_shift_vectors(rng, m, n):
     mk = (1 << w) - 1
     vals = [mk, 1 << (w - 1), (1 << (w - 1)) | 1, mk ^ 1, (1 << (w - 1)) - 1, rng.getrandbits(w) | (1 << (w - 1)), rng.getrandbits(w)]
     return [[rng.choice(vals) & mk, rng.choice(m.amounts) & ((1 << m.ports[1].width) - 1)] for _ in range(n)]
+
+
+ROOT_WIDTHS = [1, 2, 3, 5, 7, 9, 13, 15, 17, 31, 33, 47, 63, 8, 16, 32, 64]
+
+
+def gen_root_mask_module(rng, idx):
+    """directed family: an operator whose result can have set bits above the destination width
+    (>>>, -, unary -, ~, *, <<, +, sign extension of a narrower signed operand) as the ROOT of
+    `assign o = ...`, destination widths that are not a native size (1,2,3,5,7,9,13,15,17,31,33,
+    47,63) next to 8/16/32/64, signed and unsigned operands.  What Simulator::get returns is
+    compared unmasked, so a store that is not masked to the declared width shows."""
+    w = rng.choice(ROOT_WIDTHS)
+    sg = rng.random() < 0.65 and w > 1
+    pw = rng.choice([3, 4, 7])
+    ports = [Port("p0", w, sg), Port("p1", w, sg), Port("p2", pw, False)]
+    if w > 2 and rng.random() < 0.4:
+        ports[1] = Port("p1", rng.choice([x for x in ROOT_WIDTHS if 1 < x < w] or [w]), sg)    # narrower operand: extension
+    amounts = [1, 2, 3, w - 1, w, w + 1, max(1, w // 2)]
+    amounts = [a for a in amounts if 1 <= a < 128]
+    shapes = [
+        lambda: ("bin", ">>>", ("var", 0), ("lit", 8, False, rng.choice(amounts))),
+        lambda: ("bin", ">>>", ("var", 0), ("var", 2)),
+        lambda: ("bin", ">>", ("var", 0), ("lit", 8, False, rng.choice(amounts))),
+        lambda: ("bin", "<<", ("var", 0), ("lit", 8, False, rng.choice(amounts))),
+        lambda: ("bin", "<<<", ("var", 0), ("var", 2)),
+        lambda: ("bin", "-", ("var", 0), ("var", 1)),
+        lambda: ("bin", "+", ("var", 0), ("var", 1)),
+        lambda: ("bin", "*", ("var", 0), ("var", 1)),
+        lambda: ("un", "-", ("var", 0)),
+        lambda: ("un", "~", ("var", 0)),
+        lambda: ("un", "-", ("var", 1)),
+        # extension of the narrower operand (recorded finding: `p1 | <signed zero literal>` is folded by
+        # Cranelift and stored unmasked, so the other operand is a port)
+        lambda: ("bin", "|", ("var", 1), ("var", 0)),
+        lambda: ("bin", "^", ("var", 1), ("var", 0)),
+    ]
+    order = list(range(len(shapes)))
+    rng.shuffle(order)
+    order = [0, 1] + [i for i in order if i > 1][:6]
+    outs, exprs = [], []
+    for k, i in enumerate(order):
+        e = shapes[i]()
+        r = rng.random()
+        wo = w if r < 0.6 else rng.choice([x for x in ROOT_WIDTHS if x <= 64])
+        if wo == 1 and sg:
+            wo = w          # recorded finding engine-cranelift-one-bit-output-not-masked
+        outs.append(Port("o%d" % k, wo, False))
+        exprs.append(e)
+    m = ExprModule("M%d" % idx, ports, outs, exprs)
+    m.kind = "rootmask"
+    m.amounts = amounts
+    return m
+
+
+def gen_root_mask_vectors(rng, m, n):
+    vecs = []
+    for _ in range(n):
+        v = []
+        for p in m.ports[:2]:
+            mk = (1 << p.width) - 1
+            v.append(rng.choice([mk, 1 << (p.width - 1), (1 << (p.width - 1)) | 1, mk ^ 1, mk ^ 0xf & mk,
+                                 (mk ^ rng.getrandbits(p.width) >> 1) & mk, rng.getrandbits(p.width), 1, 0]) & mk)
+        v.append(rng.choice(m.amounts + [1, 2]) & ((1 << m.ports[2].width) - 1))
+        vecs.append(v)
+    return vecs
 
 
 def gen_narrow_shift_module(rng, idx, n_out=6):
